@@ -22,6 +22,11 @@ import (
 const procTimeout = 6 * time.Minute // watchdog only
 const checkerTimeout = 60 * time.Second
 
+// seconds without CPU consumption after which a goroutine snapshot is requested (it only
+// chooses when to look; the snapshot decides, see proc.go)
+const workerStallSecs = 5 // workers answer without dying, so looking early costs nothing
+const cliStallSecs = 45    // the CLI dies of the request (SIGQUIT)
+
 type driver struct {
 	e  *lib.Env
 	mu sync.Mutex
@@ -45,6 +50,8 @@ type driver struct {
 	raceRuns     int
 	autoLoaded   int
 	pending      []pendingRace
+	probes       int
+	deadlocks    map[string]int
 }
 
 // pendingRace: an attributed report between registry/autoload code and code that builds or
@@ -64,7 +71,7 @@ func main() {
 	}
 	e := lib.Init("C10", "exploration")
 	d := &driver{e: e, byMode: map[string]int{}, raceAttr: map[string]int{}, raceOther: map[string]int{}, crashes: map[string]int{},
-		crashOther: map[string]int{}, scriptEarly: map[string]int{}}
+		crashOther: map[string]int{}, scriptEarly: map[string]int{}, deadlocks: map[string]int{}}
 	e.Assume("schedules are whatever the Go scheduler produced under the seeded yield handler, GOMAXPROCS in {1,4,16} and the machine's load; they are not reproducible",
 		"definitions in the Go-level cases are stub ClassStmt/InterfaceStmt/FuncStmt values without a source position, so the same-file duplicate exemption of AddClass/AddInterface never applies",
 		"a race report counts for the property only if the innermost repository frame of one of its two accesses lies in runtime/vm.go, runtime/vm_temp.go, runtime/autoload.go or parser/class_path_manager.go")
@@ -99,6 +106,8 @@ func main() {
 	e.Extra("unattributed_races", top(d.raceOther, 25))
 	e.Extra("attributed_crashes", d.crashes)
 	e.Extra("unattributed_crashes", d.crashOther)
+	e.Extra("goroutine_snapshots_requested", d.probes)
+	e.Extra("deadlocks", d.deadlocks)
 	e.Extra("script_runs_completed", d.scriptDone)
 	e.Extra("script_runs_ended_by_script_error", d.scriptEarly)
 	e.Extra("autoload_calls_that_returned_a_definition", d.autoLoaded)
@@ -222,6 +231,16 @@ func (d *driver) violation(key, what string, replay any) {
 	d.e.Violation(key, what, "json", b)
 }
 
+// deadlock records a snapshot-proven deadlock; the replay holds the case and the dump.
+func (d *driver) deadlock(dl *deadlockInfo, caseText string, caseReplay []byte) {
+	d.mu.Lock()
+	d.deadlocks[dl.Key]++
+	d.mu.Unlock()
+	body := append([]byte("case: "+caseText+"\n"+dl.What+"\n\n---- case ----\n"), caseReplay...)
+	body = append(body, []byte("\n\n---- goroutine snapshot ----\n"+head(dl.Dump, 200000))...)
+	d.e.Violation(dl.Key, dl.What+" ("+caseText+")", "txt", body)
+}
+
 func (d *driver) count(mode string) {
 	d.mu.Lock()
 	d.evals++
@@ -249,15 +268,23 @@ func (d *driver) runGoCase(c caseSpec, idx int) {
 	if c.Race {
 		bin = e.Bin("c10-race")
 	}
-	res := lib.RunProc(lib.ProcSpec{Argv: []string{bin, "worker", specPath, outPath}, Dir: dir, Timeout: procTimeout,
+	res := runMonitored(childSpec{Argv: []string{bin, "worker", specPath, outPath}, Dir: dir, Timeout: procTimeout, StallSecs: workerStallSecs,
+		StackFile: outPath + ".stacks", Repo: e.Repo,
 		Env: []string{"GORACE=halt_on_error=0 exitcode=0 log_path=" + filepath.Join(dir, "race"), fmt.Sprintf("GOMAXPROCS=%d", c.Procs)}})
 	d.count(c.Mode)
-	if res.TimedOut {
-		e.Inconclusive("watchdog fired on " + c.ID)
-		return
-	}
+	d.mu.Lock()
+	d.probes += res.Probes
+	d.mu.Unlock()
 	caseText := fmt.Sprintf("%s: %d goroutines, %d calls, %d names per table, GOMAXPROCS=%d, std=%v, yield=%d, temp=%v, share=%v, race-build=%v, case seed %d",
 		c.ID, c.G, c.Ops, c.Names, c.Procs, c.Std, c.Yield, c.Temp, c.Share, c.Race, c.Seed)
+	if res.Deadlock != nil {
+		d.deadlock(res.Deadlock, caseText, spec)
+		return
+	}
+	if res.TimedOut {
+		e.Inconclusive("watchdog fired on " + c.ID + " and the goroutine dump does not show a registry deadlock")
+		return
+	}
 	if c.Race {
 		d.mu.Lock()
 		d.raceRuns++
@@ -502,10 +529,18 @@ func (d *driver) runScriptCase(c *scriptCase, idx int) {
 	if c.Yield {
 		env = append(env, fmt.Sprintf("VERIF_YIELD=%d:0.5", c.Seed%100000))
 	}
-	res := lib.RunProc(lib.ProcSpec{Argv: []string{bin, filepath.Join(dir, "main.php")}, Dir: dir, Timeout: procTimeout, Env: env})
+	cr := runMonitored(childSpec{Argv: []string{bin, filepath.Join(dir, "main.php")}, Dir: dir, Timeout: procTimeout, StallSecs: cliStallSecs, Repo: e.Repo, Env: env})
+	res := lib.ProcResult{Stdout: cr.Stdout, Stderr: cr.Stderr, Exit: cr.Exit, Signal: cr.Signal, TimedOut: cr.TimedOut}
 	d.count("script")
+	d.mu.Lock()
+	d.probes += cr.Probes
+	d.mu.Unlock()
+	if cr.Deadlock != nil {
+		d.deadlock(cr.Deadlock, c.String(), c.replay())
+		return
+	}
 	if res.TimedOut {
-		e.Inconclusive("watchdog fired on " + c.String())
+		e.Inconclusive("the process stopped making progress (or the watchdog fired) and its goroutine dump does not show a registry deadlock: " + c.String())
 		return
 	}
 	if c.Race {
